@@ -212,6 +212,29 @@ def run(tier, seed):
                     break
     finally:
         LD_EPS[0] = 0.0
+    # the library's own three-part composite, CompositeCDFTransform(squash, cdf) = squash ; cdf ; squash^-1 with ONE squashing
+    # transform: after its parameter moves (a training step), the composite is still that composition
+    from nflows.transforms import nonlinearities as nl_, base as base_
+    for tval in (1.0, 2.5, 0.4):
+        sq = nl_.Sigmoid(temperature=1.0, learn_temperature=True).double()
+        cdf = nl_.PiecewiseRationalQuadraticCDF([3], num_bins=3).double()
+        comp = attempt(nl_.CompositeCDFTransform, sq, cdf)
+        ck.case(("composite-cdf", tval), nontrivial=True)
+        if comp[0] != "ok":
+            continue
+        comp = comp[1].double()
+        with torch.no_grad():
+            sq.temperature.fill_(tval)          # the caller's squashing transform, the one it handed in
+        xg = torch.tensor([[-1.2, 0.1, 0.7], [0.4, -0.3, 2.0]], dtype=torch.float64)
+        got = attempt(comp, xg)
+        ref = attempt(base_.CompositeTransform([sq, cdf, base_.InverseTransform(sq)]), xg)
+        nparams = len(list(comp.parameters()))
+        if got[0] == "ok" and ref[0] == "ok" and (not torch.allclose(got[1][0], ref[1][0], atol=1e-10) or not torch.allclose(got[1][1], ref[1][1], atol=1e-10)):
+            ck.finding("wrappers:not-function-composition:CompositeCDFTransform",
+                       "temperature %g set on the squashing transform after construction: outputs differ from squash ; cdf ; squash^-1 by %g, log-dets by %g"
+                       % (tval, float((got[1][0] - ref[1][0]).abs().max()), float((got[1][1] - ref[1][1]).abs().max())),
+                       {"search": "composite-cdf", "temperature": tval})
+            break
     ck.sample({"program": str(progs[min(30, len(progs) - 1)])})
     if drv is not None:
         ck.correspondence("composite/inverse programs", n, mm)
